@@ -27,13 +27,19 @@ using namespace OP2Utility;
 #ifndef RSZ1
 #define RSZ1 5
 #endif
+#ifndef STORED0
+#define STORED0 0xFFFFFFFFu   /* block length of member 0 when it differs from the size in its index entry (compressed members) */
+#endif
+#ifndef STORED1
+#define STORED1 0xFFFFFFFFu
+#endif
 #ifndef KIND0
 #define KIND0 0x100
 #endif
 #ifndef KIND1
 #define KIND1 0x100
 #endif
-static const EncMember MS[2] = { { RNAME0, RSZ0, KIND0 }, { RNAME1, RSZ1, KIND1 } };
+static const EncMember MS[2] = { { RNAME0, RSZ0, KIND0, STORED0 }, { RNAME1, RSZ1, KIND1, STORED1 } };
 static bool g_may_throw;
 extern "C" void vf_at_throw(void) { vf_assert(g_may_throw, "well-formed archive rejected"); }
 
@@ -55,10 +61,10 @@ extern "C" void h_read_reference(void) {
       vf_assert(v.GetSize(i) == MS[i].size, "member size");
       vf_assert((uint16_t)v.GetCompressionCode(i) == MS[i].kind, "member compression kind");
       auto st = v.OpenStream(i);
-      vf_assert(st->Length() == MS[i].size, "stored payload length");
+      vf_assert(st->Length() == enc_stored(MS[i]), "stored payload length is the block's, also when it differs from the size in the index (compressed members)");
       uint8_t buf[16]; memset(buf, 0, 16);
-      st->Read(buf, MS[i].size);
-      vf_assert(memcmp(buf, f + po[i], MS[i].size) == 0, "stored payload bytes");
+      st->Read(buf, enc_stored(MS[i]));
+      vf_assert(memcmp(buf, f + po[i], enc_stored(MS[i])) == 0, "stored payload bytes");
       vf_assert(v.GetIndex(MS[i].name) == i, "lookup by name");
     }
     VF_WITNESS();
